@@ -32,6 +32,9 @@ type NetOpts struct {
 	// anywhere in [0, FinalCutHeight+2]) and makes the maturity delay at least 1, so that the boundary of the
 	// ephemeral-parent comparison is crossed by short chains while v2 transactions are already allowed.
 	EphemeralNear int
+	// DevTimelock forces a siafund allocation at the developer fund's old address and makes the unlock conditions of
+	// its new address timelocked (height 3..6); otherwise one network in four gets a timelocked new address (1..6).
+	DevTimelock bool
 }
 
 // GenNetwork draws a network configuration with chronologically ordered fork heights
@@ -121,6 +124,11 @@ func GenNetwork(t *rapid.T, o NetOpts) (*consensus.Network, types.Block) {
 	// developer siafund address override pair
 	n.HardforkDevAddr.OldAddress = MakeLock(LockSpec{Kind: 0, K1: 2}).Address()
 	n.HardforkDevAddr.NewAddress = MakeLock(LockSpec{Kind: 0, K1: 3}).Address()
+	if o.DevTimelock {
+		n.HardforkDevAddr.NewAddress = MakeLock(LockSpec{Kind: KindIndex("v1-1of2-timelock"), K1: 3, K2: 2, Height: uint64(rapid.IntRange(3, 6).Draw(t, "devTimelock"))}).Address()
+	} else if rapid.IntRange(0, 3).Draw(t, "devTimelocked") == 0 {
+		n.HardforkDevAddr.NewAddress = MakeLock(LockSpec{Kind: KindIndex("v1-1of2-timelock"), K1: 3, K2: 2, Height: uint64(rapid.IntRange(1, 6).Draw(t, "devTimelock"))}).Address()
+	}
 
 	// genesis block: siacoin and siafund allocations in one v1 transaction
 	var txn types.Transaction
@@ -144,7 +152,7 @@ func GenNetwork(t *rapid.T, o NetOpts) (*consensus.Network, types.Block) {
 		}
 		left -= v
 		addr := MakeLock(LockSpec{Kind: rapid.IntRange(0, 1).Draw(t, "sfk"), K1: rapid.IntRange(0, NumKeys-1).Draw(t, "sfk1"), K2: rapid.IntRange(0, NumKeys-1).Draw(t, "sfk2")}).Address()
-		if i == 0 && rapid.IntRange(0, 3).Draw(t, "sfDev") == 0 {
+		if i == 0 && (rapid.IntRange(0, 3).Draw(t, "sfDev") == 0 || o.DevTimelock) {
 			addr = n.HardforkDevAddr.OldAddress
 		}
 		txn.SiafundOutputs = append(txn.SiafundOutputs, types.SiafundOutput{Value: v, Address: addr})
